@@ -1,6 +1,8 @@
 """C04 — stack (core/_files.py) against lean/PncModel/File.lean stackFiles"""
 import copy
 
+import sys
+
 import numpy as np
 
 from .. import lib, pfile
@@ -21,7 +23,7 @@ RULE = ('kind split: a random file is cut along a random dimension into 1..4 con
         'pieces and a variable whose stack axis is not the first; the multi-file front ends pncmfopen and open_mfdataset (with and without stackdim) open the same '
         'pieces from paths whose argument order is not the sorted order, also with repeated paths, and must give the model\'s stack of that sequence; '
         'later files may carry extra global attributes (the result has the first file\'s); IOAPI files are cut along TSTEP or LAY, the pieces '
-        'saved and stacked again (method and pncmfopen): data, TFLAG, SDATE/STIME/TSTEP, VGLVLS/NLAYS must equal the original; IOAPI pieces also stacked out of order or with one left out (every variable with the stack dimension, TFLAG included, equals the concatenation of the arguments); fill value 0')
+        'saved and stacked again (method and pncmfopen): data, TFLAG, SDATE/STIME/TSTEP, VGLVLS/NLAYS must equal the original; IOAPI pieces also stacked out of order or with one left out (every variable with the stack dimension, TFLAG included, equals the concatenation of the arguments); fill value 0; present cells holding the value of the fill marker; a fixed-width string variable along the stack dimension; the legacy front end on variables in the non-native byte order')
 ASSUMPTIONS = ['numpy.ma.concatenate behaves as list concatenation along the axis']
 MIN_NONTRIVIAL = {'quick': 60, 'thorough': 600}
 
@@ -41,9 +43,28 @@ def _slice_spec(spec, dim, a, b):
     return out
 
 
+def _inject_marker(rng, spec, prob=0.3):
+    """a PRESENT cell that holds the value of the variable's fill marker (a real -999 next to fill_value -999, a count of 0
+    next to fill_value 0): it is data, not a missing cell"""
+    for v in spec['vars']:
+        if v['masked'] and v['data'] and rng.random() < prob:
+            present = [j for j, x in enumerate(v['data']) if x is not None]
+            if present:
+                v['data'][rng.choice(present)] = 0 if v.get('fill0') else -999
+
+
 def _case(rng):
+    c = _case0(rng)
+    if c['kind'] != 'bad':
+        c['labels'] = rng.random() < 0.25
+        c['bigendian'] = rng.random() < 0.3
+    return c
+
+
+def _case0(rng):
     kind = rng.choice(['split', 'split', 'indep', 'indep', 'bad'])
     spec = pfile.gen_file(rng, maxlen=5, minlen=1, scalar_prob=0.05)
+    _inject_marker(rng, spec)
     names = [d[0] for d in spec['dims']]
     dim = rng.choice(names)
     if len(names) >= 2 and rng.random() < 0.2:
@@ -87,6 +108,7 @@ def _case(rng):
             elif rng.random() < 0.3:
                 # a different value in a later file for a variable without the stack dimension
                 v['data'] = [77000 + t if x is not None else None for t, x in enumerate(v['data'])]
+        _inject_marker(rng, s2, 0.2)
         if i > 0 and rng.random() < 0.5:
             s2['attrs'] = list(s2['attrs']) + ['later%d' % i]      # global attributes come from the first file
         files.append(s2)
@@ -217,14 +239,39 @@ def _oracle_ioapi(case, res):
     return None
 
 
+def _piece_labels(case, i):
+    n = {d[0]: d[1] for d in case['files'][i]['dims']}.get(case['dim'], 0)
+    return ['f%d_%d_%s' % (i, j, 'stuvwxyz'[(i + j) % 8] * 2) for j in range(n)]
+
+
+def _add_labels(case, fs):
+    """a variable of fixed-width strings (station names) along the stack dimension in every file: outside the numeric
+    model, judged by the oracle alone"""
+    for i, f in enumerate(fs):
+        if case['dim'] in f.dimensions:
+            lv = f.createVariable('LABELS', 'S8', (case['dim'],))
+            lv[:] = np.array(_piece_labels(case, i), dtype='S8')
+
+
+def _pop_labels(o):
+    lo = o.variables.pop('LABELS', None)
+    if lo is None:
+        return None
+    return [x.decode() if isinstance(x, bytes) else str(x) for x in np.asarray(lo[...]).ravel().tolist()]
+
+
 def impl(case):
     if case['kind'] == 'ioapi':
         return _impl_ioapi(case)
     fs = [pfile.build(s) for s in case['files']]
+    if case.get('labels'):
+        _add_labels(case, fs)
     res = {}
     try:
         with lib.pnc_warnings():
             o = fs[0].stack(fs[1:], case['dim'])
+        if case.get('labels'):
+            res['labels'] = _pop_labels(o)
         res['obs'] = pfile.observe(o)
         if case['kind'] == 'split':
             # slicing the stacked file at each piece's extent gives the piece back
@@ -244,6 +291,13 @@ def impl(case):
         try:
             from PseudoNetCDF.core._functions import stack_files
             fs2 = [pfile.build(s) for s in case['files']]
+            if case.get('bigendian'):
+                # variables in the other byte order, as the readers of Fortran binary files present them
+                for f2 in fs2:
+                    for vk in list(f2.variables):
+                        v2 = f2.variables[vk]
+                        if v2.dtype.kind in 'fi' and v2.dtype.itemsize > 1:
+                            f2.variables[vk] = v2.astype(v2.dtype.newbyteorder('>' if sys.byteorder == 'little' else '<'))
             dimnames = {d[0] for d in case['files'][0]['dims']}
             for f2, s2 in zip(fs2, case['files']):
                 # coordinate variables are declared as such (they are exempt from the duplicate warning)
@@ -414,6 +468,10 @@ def oracle(case, res):
             return first or ('stack_files mask loss: ' + d)
     if 'mf_err' in res:
         return 'multi-file front end raised %s' % res['mf_err']
+    if case.get('labels') and 'labels' in res:
+        want = [x for i in range(len(case['files'])) for x in _piece_labels(case, i)]
+        if res['labels'] != want:
+            return 'string variable LABELS(%s) of type S8: stacked to %s, the concatenation is %s' % (case['dim'], res['labels'], want)
     return _core_oracle(case, res) or _mf_oracle(case, res)
 
 
